@@ -15,6 +15,8 @@ from mxlpy.meta.sympy_tools import (
     sympy_to_inline_rust,
 )
 
+from mxlpy.types import InitialAssignment
+
 if TYPE_CHECKING:
     from collections.abc import Callable
 
@@ -45,6 +47,7 @@ def _generate_model_code(
     imports: list[str] | None = None,
     end: str | None = None,
     free_parameters: list[str] | None = None,
+    single_return_suffix: str | None = None,
 ) -> str:
     source: list[str] = []
     # Model components
@@ -74,35 +77,52 @@ def _generate_model_code(
             )
         )
 
-    # Derived
-    for name, derived in model.get_raw_derived().items():
-        expr = custom_fns.get(name)
-        if expr is None:
-            expr = fn_to_sympy(
-                derived.fn,
-                origin=name,
-                model_args=list_of_symbols(derived.args),
+    # Parameters defined by initial assignments have been evaluated once
+    all_values = model.get_args()
+    initial_assignments = {
+        k: float(all_values[k])
+        for k, v in model.get_raw_parameters(as_copy=False).items()
+        if isinstance(v.value, InitialAssignment)
+    }
+    if len(initial_assignments) > 0:
+        source.append(
+            "\n".join(
+                assignment_template.format(k=k, v=v)
+                for k, v in initial_assignments.items()
             )
-        if expr is None:
-            msg = f"Unable to parse fn for derived value '{name}'"
-            raise ValueError(msg)
-        source.append(assignment_template.format(k=name, v=sympy_inline_fn(expr)))
+        )
 
-    # Reactions
-    for name, rxn in model.get_raw_reactions().items():
+    # Derived & reactions, each after everything it depends on
+    raw_derived = model.get_raw_derived()
+    raw_reactions = model.get_raw_reactions()
+    declared = [*raw_derived, *raw_reactions]
+    resolved = [i for i in model._create_cache().order if i in declared]  # noqa: SLF001
+    for name in resolved:
         expr = custom_fns.get(name)
-        if expr is None:
-            try:
+        if (derived := raw_derived.get(name)) is not None:
+            if expr is None:
                 expr = fn_to_sympy(
-                    rxn.fn,
+                    derived.fn,
                     origin=name,
-                    model_args=list_of_symbols(rxn.args),
+                    model_args=list_of_symbols(derived.args),
                 )
-            except KeyError:
-                _LOGGER.warning("Failed to parse %s", name)
-        if expr is None:
-            msg = f"Unable to parse fn for reaction value '{name}'"
-            raise ValueError(msg)
+            if expr is None:
+                msg = f"Unable to parse fn for derived value '{name}'"
+                raise ValueError(msg)
+        else:
+            rxn = raw_reactions[name]
+            if expr is None:
+                try:
+                    expr = fn_to_sympy(
+                        rxn.fn,
+                        origin=name,
+                        model_args=list_of_symbols(rxn.args),
+                    )
+                except KeyError:
+                    _LOGGER.warning("Failed to parse %s", name)
+            if expr is None:
+                msg = f"Unable to parse fn for reaction value '{name}'"
+                raise ValueError(msg)
         source.append(assignment_template.format(k=name, v=sympy_inline_fn(expr)))
 
     # Diff eqs
@@ -122,9 +142,16 @@ def _generate_model_code(
         msg = "Generating code for Surrogates not yet supported."
         _LOGGER.warning(msg)
 
-    # Return
-    ret_order = [i for i in variables if i in diff_eqs]
-    ret = ", ".join(f"d{i}dt" for i in ret_order) if len(diff_eqs) > 0 else "()"
+    # Return one derivative per variable, in the order of the variables
+    if len(diff_eqs) > 0:
+        source.extend(
+            assignment_template.format(k=f"d{variable}dt", v="0.0")
+            for variable in variables
+            if variable not in diff_eqs
+        )
+    ret = ", ".join(f"d{i}dt" for i in variables) if len(diff_eqs) > 0 else "()"
+    if single_return_suffix is not None and len(variables) == 1 and len(diff_eqs) > 0:
+        ret += single_return_suffix
     source.append(return_template.format(ret))
 
     if end is not None:
@@ -156,10 +183,11 @@ def generate_model_code_py(
         ],
         sized=False,
         model_fn=model_fn,
-        variables_template="    {} = variables",
+        variables_template="    ({},) = variables",
         assignment_template="    {k}: float = {v}",
         sympy_inline_fn=sympy_to_inline_py,
         return_template="    return {}",
+        single_return_suffix=",",  # a tuple, also for a single variable
         end=None,
         free_parameters=free_parameters,
         custom_fns={} if custom_fns is None else custom_fns,
